@@ -20,7 +20,7 @@ func init() { register("C10", checkC10) }
 type c10Entry struct{ K, V string }
 
 func checkC10(c *run.Ctx) {
-	n := c.N(100000, 3000000)
+	n := c.N(100000, 30000000)
 	names := []string{"A", "B", "C", "D", "E", "PATH", "Path", "path", "a", "b", "HOME", "X_1", "Y"}
 	c.Parallel("block", n, func(i int, r *rand.Rand) {
 		nent := r.IntN(9)
